@@ -102,6 +102,8 @@ type getter func(ctx context.Context, key []byte) (val []byte, modRevision uint6
 type dispatcher func(ctx context.Context, key []byte, val []byte, revision, preRevision uint64, valid bool, eventType proto.Event_EventType, err error)
 
 type asyncFifoRetryImpl struct {
+	verif verifFields // empty without build tag verif
+
 	// internal components
 	queue *eventQueue
 
@@ -145,6 +147,8 @@ func (a *asyncFifoRetryImpl) Run(ctx context.Context) {
 	for {
 		select {
 		case <-ctx.Done():
+			return
+		case <-a.verifStopChan():
 			return
 		case <-ticker.C:
 			if a.verifStopped() {
